@@ -28,7 +28,7 @@ import torch
 
 from harness.lib import common as C
 
-COQ_TARGETS = ["Models/C11_mtmvn.vo", "Proofs/C11_mtmvn.vo"]
+COQ_TARGETS = ["Models/C11_mtmvn.vo", "Proofs/C11_mtmvn.vo", "Proofs/C11_gen.vo"]
 LEVEL_NOTE = ("theorems are about the Gallina model of the index arithmetic (all n, t, all ints / slices); the tie "
               "to /repo is a fail-closed ast translation of the integer arithmetic (obligations re-proved each run) "
               "plus exhaustive differential comparison on small shapes")
@@ -446,6 +446,16 @@ def canonical(cov, perm):
     return cov[..., inv, :][..., :, inv]
 
 
+def guarded(out, key, case, fn, what=None):
+    """run an implementation call; an exception is a keyed failure of that call, never a crash of the check.
+    returns (ok, value)"""
+    try:
+        return True, fn()
+    except Exception as e:
+        out.fail("%s:raises-%s" % (key, exc_name(e)), "%s raised %r" % (what or key, e), case)
+        return False, None
+
+
 def run_method_checks(out, ctx, tab):
     import gpytorch
     from gpytorch.distributions import MultitaskMultivariateNormal as MT, MultivariateNormal as MVN
@@ -463,11 +473,13 @@ def run_method_checks(out, ctx, tab):
                 case = dict(n=n, t=t, interleaved=il, batch_rank=brank)
                 nt = n > 1 and t > 1
                 out.case(dict(case, what="mean/variance"), nt, label="methods")
-                if not torch.equal(d.mean, mean):
-                    out.fail("mean:%s" % lay, ".mean does not return the mean passed in", case, impl=d.mean, model=mean)
+                ok, dm = guarded(out, "mean:%s" % lay, case, lambda: d.mean)
+                if ok and not (dm.shape == mean.shape and torch.equal(dm, mean)):
+                    out.fail("mean:%s" % lay, ".mean does not return the mean passed in", case, impl=dm, model=mean)
                 wv = Cc.diagonal(dim1=-1, dim2=-2).reshape(mean.shape)
-                if not torch.allclose(d.variance, wv, atol=1e-12):
-                    out.fail("variance:%s" % lay, ".variance[i,a] is not Var(Y_ia)", case, impl=d.variance, model=wv)
+                ok, dv = guarded(out, "variance:%s" % lay, case, lambda: d.variance)
+                if ok and not (dv.shape == wv.shape and torch.allclose(dv, wv, atol=1e-12)):
+                    out.fail("variance:%s" % lay, ".variance[i,a] is not Var(Y_ia)", case, impl=dv, model=wv)
                 # log_prob, several value shapes, fast path on/off
                 for vshape in ([], [3], [2, 3]):
                     g = torch.Generator().manual_seed(7 + len(vshape))
@@ -475,8 +487,12 @@ def run_method_checks(out, ctx, tab):
                     want = ref_logprob(Cc, mean.reshape(*mean.shape[:-2], N), v.reshape(*v.shape[:-2], N))
                     for fc in (True, False):
                         out.case(dict(case, what="log_prob", vshape=vshape, fast=fc), nt and n != t, label="log_prob")
-                        with gpytorch.settings.fast_computations(log_prob=fc), gpytorch.settings.max_cholesky_size(10 ** 6):
-                            got = d.log_prob(v)
+                        def lp():
+                            with gpytorch.settings.fast_computations(log_prob=fc), gpytorch.settings.max_cholesky_size(10 ** 6):
+                                return d.log_prob(v)
+                        ok, got = guarded(out, "log_prob:%s" % lay, dict(case, vshape=vshape, fast=fc), lp)
+                        if not ok:
+                            continue
                         if not (got.shape == want.shape and torch.allclose(got, want, atol=1e-8, rtol=1e-10)):
                             out.fail("log_prob:%s:%s" % (lay, "square" if n == t else "n!=t"),
                                      "log_prob differs from the density of the joint Gaussian", dict(case, vshape=vshape, fast=fc),
@@ -484,8 +500,10 @@ def run_method_checks(out, ctx, tab):
                 # rsample with base samples: the response to unit base vectors is a root of the joint covariance
                 E = torch.eye(N).reshape(N, *([1] * brank), n, t).expand(N, *mean.shape[:-2], n, t).contiguous()
                 out.case(dict(case, what="rsample"), nt, label="rsample")
-                S = d.rsample(base_samples=E)
-                if S.shape != E.shape:
+                ok, S = guarded(out, "rsample:%s:base-samples" % lay, case, lambda: d.rsample(base_samples=E))
+                if not ok:
+                    pass
+                elif S.shape != E.shape:
                     out.fail("rsample:%s:shape" % lay, "rsample(base_samples) shape", case, impl=list(S.shape))
                 else:
                     A = (S - mean).reshape(N, *mean.shape[:-2], N)
@@ -493,25 +511,30 @@ def run_method_checks(out, ctx, tab):
                     if not torch.allclose(A @ A.transpose(-1, -2), Cc, atol=1e-8):
                         out.fail("rsample:%s" % lay, "rsample(base_samples=e) is not mean + L e with L L^T = joint covariance",
                                  case, impl=A @ A.transpose(-1, -2), model=Cc)
-                    z = d.rsample(base_samples=torch.zeros_like(mean))
-                    if not torch.allclose(z, mean, atol=1e-12):
+                    ok, z = guarded(out, "rsample:%s:zero" % lay, case, lambda: d.rsample(base_samples=torch.zeros_like(mean)))
+                    if ok and not (z.shape == mean.shape and torch.allclose(z, mean, atol=1e-12)):
                         out.fail("rsample:%s:zero" % lay, "rsample(base_samples=0) != mean", case, impl=z, model=mean)
                 torch.manual_seed(ctx["seed"])
                 for ss in ([], [2], [2, 3]):
-                    s1 = d.rsample(torch.Size(ss))
-                    bsamp = d.get_base_samples(torch.Size(ss))
+                    ok, pr = guarded(out, "rsample:%s:sample-shape" % lay, dict(case, ss=ss),
+                                     lambda: (d.rsample(torch.Size(ss)), d.get_base_samples(torch.Size(ss))))
+                    if not ok:
+                        continue
+                    s1, bsamp = pr
                     if list(s1.shape) != ss + list(mean.shape) or list(bsamp.shape) != ss + list(mean.shape):
                         out.fail("rsample:%s:sample-shape" % lay, "rsample / get_base_samples shape", dict(case, ss=ss),
                                  impl=[list(s1.shape), list(bsamp.shape)])
                 # to_data_independent_dist: t x t block of every point, read at the model's positions
                 out.case(dict(case, what="to_data_independent_dist"), nt, label="to_data_independent_dist")
-                di = d.to_data_independent_dist(jitter_val=0.0)
+                ok, di = guarded(out, "to_data_independent_dist:%s" % lay, case,
+                                 lambda: (lambda r: (r, r.mean, r.covariance_matrix))(d.to_data_independent_dist(jitter_val=0.0))[0])
                 pos = torch.tensor(T["tdid"]).reshape(n, t)
                 want = torch.stack([cov[..., pos[i], :][..., :, pos[i]] for i in range(n)], dim=-3)
                 want2 = torch.stack([Cc[..., i * t:(i + 1) * t, i * t:(i + 1) * t] for i in range(n)], dim=-3)
                 if not torch.equal(want, want2):
                     out.fail("model:tdid", "model tdid positions disagree with the canonical blocks", case)
-                if not (torch.equal(di.mean, mean) and torch.allclose(di.covariance_matrix, want2, atol=1e-12)):
+                if ok and not (di.mean.shape == mean.shape and torch.equal(di.mean, mean) and di.covariance_matrix.shape == want2.shape
+                               and torch.allclose(di.covariance_matrix, want2, atol=1e-12)):
                     out.fail("to_data_independent_dist:%s" % lay, "per-point task covariances are wrong", case,
                              impl=di.covariance_matrix, model=want2)
                 # expand keeps the law
@@ -524,7 +547,9 @@ def run_method_checks(out, ctx, tab):
                         out.fail("expand:%s-covariance:raises-%s" % (rep, exc_name(e)),
                                  "MultitaskMultivariateNormal.expand raises %r" % e, dict(case, rep=rep))
                         continue
-                    if not (torch.equal(ex.mean[1], mean2) and torch.allclose(ex.covariance_matrix[1], cov2) and ex._interleaved == il):
+                    ok, good = guarded(out, "expand:%s-covariance:values" % rep, dict(case, rep=rep), lambda: bool(
+                        torch.equal(ex.mean[1], mean2) and torch.allclose(ex.covariance_matrix[1], cov2) and ex._interleaved == il))
+                    if ok and not good:
                         out.fail("expand:%s" % lay, "expand changes the distribution", dict(case, rep=rep))
     # constructors
     for (n, t) in [(n, t) for n in range(1, 5) for t in range(1, 5)]:
@@ -542,11 +567,20 @@ def run_method_checks(out, ctx, tab):
             wmean = ms.transpose(-1, -2)
             case = dict(n=n, t=t, batch_shape=bshape)
 
-            def cmp(r, what, key, wm=wmean, wj=joint):
+            def cmp(make_r, what, key, wm=wmean, wj=joint):
                 out.case(dict(case, ctor=what), n > 1 and t > 1, label="ctor:" + what.split(" ")[0])
-                T = tab[(n, t, bool(r._interleaved))]
-                Cc = canonical(r.covariance_matrix, T["perm"])
-                if not (r.mean.shape == wm.shape and torch.equal(r.mean, wm) and torch.allclose(Cc, wj, atol=1e-12)):
+                try:
+                    r = make_r()
+                    T = tab[(n, t, bool(r._interleaved))]
+                    rm, rc = r.mean, r.covariance_matrix
+                except Exception as e:
+                    out.fail("%s:raises-%s" % (key, exc_name(e)), "%s raised %r" % (what, e), dict(case, ctor=what))
+                    return
+                if rc.shape != wj.shape:
+                    out.fail(key + ":shape", "%s: covariance has shape %s" % (what, list(rc.shape)), dict(case, ctor=what))
+                    return
+                Cc = canonical(rc, T["perm"])
+                if not (rm.shape == wm.shape and torch.equal(rm, wm) and torch.allclose(Cc, wj, atol=1e-12)):
                     out.fail(key, "%s is not the joint law of independent tasks" % what, dict(case, ctor=what),
                              impl=Cc, model=wj)
 
@@ -556,15 +590,10 @@ def run_method_checks(out, ctx, tab):
                 perm_dims.insert(p, nb)
                 bm = MVN(ms.permute(*perm_dims, nb + 1), Ks.permute(*perm_dims, nb + 1, nb + 2))
                 for td in (p, p - (nb + 1)):
-                    try:
-                        r = MT.from_batch_mvn(bm, task_dim=td)
-                    except Exception as e:
-                        out.fail("from_batch_mvn:raises", "from_batch_mvn raised %r" % e, dict(case, task_dim=td))
-                        continue
-                    cmp(r, "from_batch_mvn task_dim=%d" % td, "from_batch_mvn:task_dim")
+                    cmp(lambda: MT.from_batch_mvn(bm, task_dim=td), "from_batch_mvn task_dim=%d" % td,
+                        "from_batch_mvn:task_dim" + (":last" if p == nb else ":not-last"))
             # the default task_dim=-1
-            r = MT.from_batch_mvn(MVN(ms, Ks))
-            cmp(r, "from_batch_mvn default", "from_batch_mvn:default")
+            cmp(lambda: MT.from_batch_mvn(MVN(ms, Ks)), "from_batch_mvn default", "from_batch_mvn:default")
             # invalid task_dim must be rejected (model: task_dim_norm)
             bm = MVN(ms, Ks)
             # (task_dim == len(batch_shape) passes the validation of line 112 -- an off-by-one that is not
@@ -578,21 +607,23 @@ def run_method_checks(out, ctx, tab):
                 except Exception:
                     pass
             if t >= 2:
-                r = MT.from_independent_mvns([MVN(ms[..., a, :], Ks[..., a, :, :]) for a in range(t)])
-                cmp(r, "from_independent_mvns", "from_independent_mvns")
+                cmp(lambda: MT.from_independent_mvns([MVN(ms[..., a, :], Ks[..., a, :, :]) for a in range(t)]),
+                    "from_independent_mvns", "from_independent_mvns")
             m1 = MVN(ms[..., 0, :], Ks[..., 0, :, :])
-            r = MT.from_repeated_mvn(m1, num_tasks=t)
             jr = torch.zeros(*bshape, n * t, n * t)
             for a in range(t):
                 for i in range(n):
                     for j in range(n):
                         jr[..., i * t + a, j * t + a] = Ks[..., 0, i, j]
-            cmp(r, "from_repeated_mvn", "from_repeated_mvn", wm=ms[..., 0, :].unsqueeze(-1).expand(*bshape, n, t), wj=jr)
+            cmp(lambda: MT.from_repeated_mvn(m1, num_tasks=t), "from_repeated_mvn", "from_repeated_mvn",
+                wm=ms[..., 0, :].unsqueeze(-1).expand(*bshape, n, t), wj=jr)
 
 
 # --------------------------------------------------------------------------- entry points
 
 def run(out, ctx):
+    if not ctx.get("props_ok", True) and ctx["tier"] == "quick":
+        ctx = dict(ctx, tier="thorough")      # DESIGN 5.2: a failed obligation escalates the search
     shapes = [(n, t) for n in range(1, 5) for t in range(1, 5)]
     tab = layout_tables(shapes)
     # model self-check against torch: perm must be a permutation consistent with reshape / transpose
@@ -602,8 +633,15 @@ def run(out, ctx):
         if T["perm"] != want.tolist():
             out.fail("model:layout", "layout table differs from torch reshape/transpose", dict(n=n, t=t, il=il),
                      impl=want.tolist(), model=T["perm"])
-    run_method_checks(out, ctx, tab)
-    run_getitem_checks(out, ctx, tab)
+    import traceback
+    for part in (run_method_checks, run_getitem_checks):
+        try:
+            part(out, ctx, tab)
+        except Exception:     # an implementation exception outside a guarded call: report it, keep going with the other part
+            tb = traceback.format_exc()
+            C.log(tb)
+            out.fail("harness:%s:crash" % part.__name__, "this part of the check could not be completed on the current tree: "
+                     + tb[-1200:], None, no_input=True)
     tie_t(out, ctx)
     out.exhaustive = True
     out.rule = ("shapes n,t in 1..4 (n != t included), both layouts, batch rank 0 and 1; index expressions: every "
@@ -619,21 +657,22 @@ def run(out, ctx):
 
 
 def tie_t(out, ctx):
-    """re-prove the obligations over the regenerated arithmetic (Gen/MTIndex_gen.v)"""
-    try:
-        from harness.translators import mtindex_tr
-    except Exception:
-        out.ties["T"] = "not built (hand model + tie C only)"
+    """tie T bookkeeping: the obligations over Gen/MTIndex_gen.v are Proofs/C11_gen.v + the c11_gen_* theorems of
+    Props/C11.v, rebuilt by ./check whenever the regenerated text changes; a failure there is a failed proof
+    obligation (props_ok False -> VIOLATION) and the correspondence below has been run at thorough depth."""
+    if ctx.get("unparsed"):
         return
-    mtindex_tr.check_obligations(out, ctx)
+    out.ties["T"] = "regenerated; obligations %s" % ("discharged" if ctx.get("props_ok", True) else "FAILED")
+    if not ctx.get("props_ok", True):
+        out.notes.append("tie T: a theorem over the regenerated index arithmetic (Gen/MTIndex_gen.v) no longer holds; "
+                         "correspondence escalated to thorough depth")
 
 
 def pregen(out):
-    try:
-        from harness.translators import mtindex_tr
-    except ImportError:
-        return
-    mtindex_tr.generate()
+    from harness.translators import mtindex_tr
+    info = mtindex_tr.generate()          # raises common.Unparsed (after writing the stand-in file)
+    if out is not None and info:
+        out.extra["translated_source"] = info
 
 
 def replay(path):
